@@ -14,6 +14,13 @@ _ENG = None
 
 def _init():
     global _ENG
+    import faulthandler
+    import signal
+    import sys
+    try:        # SIGUSR1 makes a worker print the Python stacks of its threads (used by the watchdog of check.py)
+        faulthandler.register(signal.SIGUSR1, file=sys.stderr, all_threads=True)
+    except (AttributeError, ValueError, OSError):
+        pass
     import contracts  # noqa: F401  (fills the registries)
     import lemmas  # noqa: F401
     from .frontend import Repo
